@@ -144,6 +144,19 @@ def validate_shard(prop, module, cfg, shard, timeout, idx):
     if rc == 124:
         raise ToolError(f"trace validation time-out on {shard}")
     if not m:
+        # The specification could not even EVALUATE its predicates on an event (a partial operator applied outside its
+        # domain: CHOOSE without a witness, a missing record field or function argument, ...). On the unchanged tree every
+        # shard is interpretable, so this means the code logged something the specification cannot read as an execution:
+        # the trace is rejected at that line (predicate Interpretable); the rest of the shard stays unchecked.
+        # Parse errors, time-outs and JVM failures are tool errors as before.
+        ev_err = "The error occurred when TLC was evaluating the nested" in out or "Attempted to" in out
+        sg = re.findall(r"(\d+) states generated", out)
+        if ev_err and sg and "Parsing or semantic analysis failed" not in out and "OutOfMemory" not in out and "StackOverflow" not in out:
+            lno = max(1, min(nlines, int(sg[-1])))
+            detail = (re.search(r"(Attempted to[^\n]*(?:\n[^\n]*){0,3})", out) or re.search(r"(Error: [^\n]*)", out))
+            log(f"trace spec {module} cannot interpret {shard} at line ~{lno}: rejected")
+            return {"shard": shard, "lines": nlines, "viol": [[lno, "Interpretable", (detail.group(1)[:300] if detail else "evaluation error")]],
+                    "drift": [], "stats": {}, "wall_s": round(wall, 1), "unchecked_after": lno}
         log(out[-3000:])
         raise ToolError(f"trace spec {module} did not consume {shard} (malformed event or spec error)")
     res = json.loads(m.group(1).encode().decode("unicode_escape"))
